@@ -133,6 +133,8 @@ def oracle_case(case):
         P.PathParser(text).parse()
     except Exception:  # noqa
         return None
+    if not spelling_pair_ok(case):
+        return None      # not a pair of equivalent spellings (e.g. a shrinking step left the domain)
     if kind == 'strategies':
         for ic, skip in modes():
             ref = safe(lambda: trace(forced_test(text, 'Generic', ic), events, ns, vs, skip))
@@ -173,6 +175,32 @@ def oracle_case(case):
 
 
 TRUE_PREDS = ['[true()]', '[1=1]', '[not(false())]', '[true() or false()]', '["a"="a"]']
+
+
+def _strip_true(t):
+    for p in sorted(TRUE_PREDS, key=len, reverse=True):
+        t = t.replace(p, '')
+    return t
+
+
+def spelling_pair_ok(case):
+    """the case really is a pair of spellings the property calls equivalent: `./p` vs `p`, a path vs the
+    same path with always-true predicates added, a union vs its operands"""
+    kind = case.get('kind', 'strategies')
+    text = case.get('path')
+    if not isinstance(text, str) or not text.strip():
+        return False
+    if kind == 'selfprefix':
+        o = case.get('other')
+        return isinstance(o, str) and (o == './' + text or text == './' + o)
+    if kind == 'truepred':
+        o = case.get('other')
+        return isinstance(o, str) and bool(o.strip()) and _strip_true(o) == _strip_true(text) and o != text
+    if kind == 'union':
+        parts = case.get('parts')
+        return isinstance(parts, list) and len(parts) >= 2 and all(isinstance(p, str) and p.strip() for p in parts) \
+            and [p.strip() for p in text.split('|')] == [p.strip() for p in parts]
+    return True
 
 
 def add_true_pred(rng, text):
